@@ -323,6 +323,10 @@ def vmap(
         transform_metadata=transform_metadata,
     )  # type: ignore[return-value]
 
+  # a list of axes is a sequence like a tuple (jax.vmap accepts it as well)
+  if isinstance(in_axes, list):
+    in_axes = tuple(in_axes)
+
   jax_in_axes = jax.tree.map(
     lambda x: extract.NodeStates.from_prefixes(x.axes, metadata=x)
     if isinstance(x, StateAxes)
@@ -544,6 +548,10 @@ def pmap(
         global_arg_shapes=global_arg_shapes,
         transform_metadata=transform_metadata,
     )  # type: ignore[return-value]
+
+  # a list of axes is a sequence like a tuple (jax.vmap accepts it as well)
+  if isinstance(in_axes, list):
+    in_axes = tuple(in_axes)
 
   jax_in_axes = jax.tree.map(
     lambda x: extract.NodeStates.from_prefixes(x.axes, metadata=x)
